@@ -39,7 +39,7 @@ def run_case(index, rng, tier):
         if v["cat"] in CATS:
             key = v["key"] if v["cat"] in ("pr-delivery", "delivery") else classify_stall(v)
             viol.append({"key": f"C06/{v['cat']}/{key}", "what": v["what"],
-                         "witness": {"v": v, "prog": summarize_prog(prog), "specs": r["specs"], "relay": relay,
+                         "witness": {"v": v, "prog": summarize_prog(prog), "specs": r["specs"], "tsn_origins": r.get("origins"), "relay": relay,
                                      "events_tail": r["events_tail"][-25:]}})
     inconclusive = None
     if r["drain"] == "slow" or r.get("drain2") == "slow":
